@@ -733,7 +733,12 @@ def gen_cache_ops(rng, n):
         # hunt for identifier reuse: cache, drop every reference, collect,
         # create and hold many nodes, then fetch them all
         k, w = rng.choice(keys), rng.choice(['init', 'action'])
-        ops += [('cache', k, w, rng.randrange(12)), ('drop', k, w), ('gc',)]
+        # (the entry is fetched once before it is dropped: a cache that
+        # remembers "already validated" must forget it with the node)
+        ops += [('cache', k, w, rng.randrange(12))]
+        if rng.random() < 0.7:
+            ops += [('print',)]
+        ops += [('drop', k, w), ('gc',)]
         m = rng.randint(8, 25)
         ops += [('alloc', rng.randrange(12), True) for _ in range(m)]
         ops += [('fetch', j) for j in range(m)]
@@ -763,6 +768,9 @@ def hunt_ops(rng):
     m = rng.randint(24, 34)
     picks = rng.sample(range(45), m + 4)
     ops = [('cache', k, w, picks[i]) for i, (k, w) in enumerate(slots)]
+    if rng.random() < 0.7:
+        # every cached entry is fetched (validated) once before it is dropped
+        ops += [('print',)] + [('fetch', j) for j in range(4)]
     ops += [('drop', k, w) for k, w in slots] + [('gc',)]
     ops += [('alloc', j, True) for j in picks[4:]]
     ops += [('fetch', j) for j in range(m)]
